@@ -78,6 +78,7 @@ type CrashPlan struct {
 	TailCuts  bool  `json:"tail_cuts"`  // C14: also cut unsynced tails
 	Sample    int   `json:"sample"`     // recover at most this many images (0 = all)
 	Depth     int   `json:"depth"`      // nested crash depth (1 = only first-level images)
+	Nested    int   `json:"nested"`     // per level: how many recoveries are themselves recorded and enumerated
 	Only      []int `json:"only,omitempty"`       // replay: only these first-level crash indices
 	OnlyCut   int   `json:"only_cut,omitempty"`   // replay: cut variant
 	PostTxns  int   `json:"post_txns"`  // transactions of the post-recovery workload
@@ -163,6 +164,7 @@ func genSim(r *Rng) SimOpts {
 		o.Strategy = simrt.StratEager
 	}
 	o.ClockWide = r.Intn(3) == 0
+	o.PoolSim = true
 	return o
 }
 
